@@ -227,6 +227,19 @@ DIFF_OPTS = [[], ["-s"], ["-o"], ["-q"], ["-v"], ["-d"], ["-t", "/"], ["-s", "-v
              ["-O", "key"], ["-A", "position", "-s"], ["-q", "-s"], ["-q", "-o"], ["-s", "-o"]]
 
 
+DIFF_CONFIGS = [
+    "[defaults]\narrays = value\n",
+    "[defaults]\narrays = position\naoh = dpos\n",
+    "[defaults]\naoh = key\n[keys]\n/items = name\n",
+    "[defaults]\naoh = deep\n[keys]\nitems = val\n",
+    "[defaults]\naoh = value\n",
+    "[rules]\n/c/e = value\n",
+    "[rules]\nitems = key\n[keys]\nitems = name\n",
+    "[rules]\n/nosuch = value\n",
+    "",
+]
+
+
 def gen_diff(rng, tier):
     pairs = list(DIFF_PAIRS)
     for n, vs in VARIANTS.items():
@@ -243,6 +256,19 @@ def gen_diff(rng, tier):
             yield C("diff", opts + [lf, rf], files, twin={"file": rng.choice([lf, rf]), "how": "dash"})
         yield C("diff", [lf, "-"], {lf: lt}, stdin=rt)
         yield C("diff", ["-", rf], {rf: rt}, stdin=lt)
+    # --config files: [defaults], per-path [rules], identity [keys]
+    for (l, r) in pairs:
+        if tier == "quick" and rng.random() < 0.6:
+            continue
+        lf, lt = fname(l), text_of(l)
+        rf, rt = r if isinstance(r, tuple) else ("r_" + fname(r), text_of(r))
+        for cfg in ([rng.choice(DIFF_CONFIGS)] if tier == "quick" else rng.sample(DIFF_CONFIGS, 3)):
+            opts = rng.choice([[], [], ["-s"], ["-o"], ["-q"], ["-A", "value"], ["-O", "key"], ["-t", "/"]])
+            yield C("diff", ["-c", "diff.ini"] + opts + [lf, rf], {lf: lt, rf: rt, "diff.ini": cfg})
+    yield C("diff", ["-c", "diff.ini", fname("map"), fname("aoh")], dict(F("map", "aoh"), **{"diff.ini": "not an ini file"}))
+    yield C("diff", ["-c", "diff.ini", fname("aoh"), "r_aoh.yaml"],
+            {fname("aoh"): text_of("aoh"), "r_aoh.yaml": VARIANTS["aoh"][0], "diff.ini": "[defaults]\naoh = bogus\n"})
+    yield C("diff", ["-c", "adir", fname("map"), fname("aoh")], dict(F("map", "aoh"), adir=None))
     # multi-document sources and indexes
     for (l, r) in [("multi3", "multi3"), ("multi2", "map"), ("map", "multi3"), ("multi3", "multi_bad_tail"),
                    ("multi_json", "multi2")]:
@@ -279,6 +305,23 @@ def gen_diff(rng, tier):
 MERGE_OPTS = [[], [], ["-D", "json"], ["-D", "yaml"], ["-D", "auto"], ["-A", "unique"], ["-H", "left"], ["-O", "deep"],
               ["-a", "rename"], ["-m", "/c"], ["-m", "new.place"], ["-J", "2", "-D", "json"], ["-l"]]
 MODES = [[], [], ["-M", "condense_all"], ["-M", "merge_across"], ["-M", "matrix_merge"]]
+
+
+MERGE_CONFIGS = [
+    "[defaults]\narrays = unique\n",
+    "[defaults]\nhashes = left\narrays = left\naoh = left\n",
+    "[defaults]\nhashes = right\narrays = right\nanchors = right\n",
+    "[defaults]\naoh = deep\n[keys]\n/items = name\n",
+    "[defaults]\naoh = unique\n",
+    "[rules]\n/c/e = unique\n/c = left\n",
+    "[rules]\nc.e = right\n[defaults]\narrays = all\n",
+    "[rules]\n/items = deep\n[keys]\nitems = val\n",
+    "[defaults]\nsets = left\n[rules]\n/st = unique\n",
+    "[rules]\n/nosuch/path = left\n",
+    "",
+]
+MERGE_CFG_PAIRS = [("map", "map"), ("aoh", "aoh"), ("map", "aoh"), ("sets", "sets"), ("deep", "deep"), ("jmap", "map"),
+                   ("aoh", "jaoh"), ("anchors", "map"), ("nulls", "nulls"), ("list", "list")]
 
 
 def gen_merge(rng, tier):
@@ -328,6 +371,29 @@ def gen_merge(rng, tier):
         elif s < 0.38:
             argv.append("-b")                                                # --backup without --overwrite
         yield C("merge", argv + names, files, stdin=stdin)
+    # --config files: [defaults], per-path [rules], identity [keys]
+    nconf = 60 if tier == "quick" else 500
+    for i in range(nconf):
+        cfg = rng.choice(MERGE_CONFIGS)
+        lhs, rhs = rng.choice(MERGE_CFG_PAIRS)
+        files = {"l_" + fname(lhs): text_of(lhs), "r_" + fname(rhs): VARIANTS.get(rhs, [text_of(rhs)])[0]
+                 if rng.random() < 0.5 else text_of(rhs), "merge.ini": cfg}
+        argv = ["-c", "merge.ini"] + rng.choice([[], [], ["-A", "all"], ["-H", "right"], ["-O", "left"], ["-M", "merge_across"],
+                                                 ["-M", "matrix_merge"], ["-D", "json"]])
+        stdin = None
+        names = ["l_" + fname(lhs), "r_" + fname(rhs)]
+        if rng.random() < 0.2:
+            stdin = files.pop(names[1])
+            names[1] = "-" if rng.random() < 0.5 else None
+        else:
+            argv.append("-S")
+        if rng.random() < 0.2:
+            argv += ["-w", "out.yaml"]
+        yield C("merge", argv + [n for n in names if n], files, stdin=stdin)
+    yield C("merge", ["-S", "-c", "merge.ini", fname("map")], dict(F("map"), **{"merge.ini": "not an ini file"}))
+    yield C("merge", ["-S", "-c", "merge.ini", fname("map"), fname("aoh")],
+            dict(F("map", "aoh"), **{"merge.ini": "[defaults]\narrays = bogus\n"}))
+    yield C("merge", ["-S", "-c", "adir", fname("map")], dict(F("map"), adir=None))
     # STDIN twins of single documents and the implied-STDIN-only form
     for n in MERGEABLE + ["jmap", "multi2", "multi3", "list", "scalar_doc", "empty", "null_doc", "bad_flow"]:
         yield C("merge", ["-S", fname(n)], F(n))
